@@ -25,9 +25,9 @@ _RMTREE = shutil.rmtree
 _SCANDIR = os.scandir
 _LSTAT = os.lstat
 
-REL = {"a": "a", "ag": "a/g", "an": "a/n", "g": "g", "n": "n", "ng": "n/g", "e": "e"}
+REL = {"a": "a", "ag": "a/g", "an": "a/n", "g": "g", "n": "n", "ng": "n/g", "e": "e", "eg": "e/g"}
 IDS = {v: k for k, v in REL.items()}
-ORDER = ["a", "ag", "an", "g", "n", "ng", "e"]
+ORDER = ["a", "ag", "an", "g", "n", "ng", "e", "eg"]
 TREE0 = {"a": None, "a/g": "8", "g": "7", "e": None}  # None = directory
 OSFLAGS = {
     "RD": os.O_RDONLY,
